@@ -86,7 +86,18 @@ pub fn os_apply(set: &mut OrderedSet<El>, op: &Value) -> Value {
       }
     }
     "collect" => {
-      *set = els(&op["list"]).into_iter().collect();
+      // the collecting constructor must not depend on what the iterator says about its length: exact (Vec), upper
+      // bound only (filter), no upper bound (flat_map, from_fn), a lying hint
+      let a: OrderedSet<El> = els(&op["list"]).into_iter().collect();
+      let b: OrderedSet<El> = els(&op["list"]).into_iter().filter(|_| true).collect();
+      let c: OrderedSet<El> = els(&op["list"]).into_iter().flat_map(|e| std::iter::once(e)).collect();
+      let mut it = els(&op["list"]).into_iter();
+      let d: OrderedSet<El> = std::iter::from_fn(move || it.next()).collect();
+      let e: OrderedSet<El> = LyingIter(els(&op["list"]).into_iter()).collect();
+      if a != b || a != c || a != d || a != e {
+        return json!({"ok": true, "diverged": "collect depends on the iterator's size hint"});
+      }
+      *set = a;
       json!({"ok": true})
     }
     other => tool_error(&format!("unknown OrderedSet op {other}")),
@@ -237,7 +248,11 @@ fn oos_apply(cur: &mut Option<OneOrSet<El>>, op: &Value) -> Value {
     },
     "new_set" => {
       // new_set takes an OrderedSet; duplicates are impossible there, so the list is collected first
-      let set: OrderedSet<El> = els(&op["list"]).into_iter().collect();
+      let set: OrderedSet<El> = els(&op["list"]).into_iter().flat_map(|e| std::iter::once(e)).collect();
+      let exact: OrderedSet<El> = els(&op["list"]).into_iter().collect();
+      if set != exact {
+        return json!({"ok": true, "diverged": "collect depends on the iterator's size hint"});
+      }
       match OneOrSet::new_set(set.clone()) {
         Ok(x) => {
           // TryFrom<OrderedSet> must agree
